@@ -328,10 +328,14 @@ func (s *FromNode) From() *FromNode {
 // tick:property
 func (s *FromNode) Where(lambda *ast.LambdaNode) *FromNode {
 	if s.Lambda != nil {
-		s.Lambda.Expression = &ast.BinaryNode{
-			Operator: ast.TokenAnd,
-			Left:     s.Lambda.Expression,
-			Right:    lambda.Expression,
+		// Build a new lambda, the current one may be a variable of the script
+		// that other nodes use as well.
+		s.Lambda = &ast.LambdaNode{
+			Expression: &ast.BinaryNode{
+				Operator: ast.TokenAnd,
+				Left:     s.Lambda.Expression,
+				Right:    lambda.Expression,
+			},
 		}
 	} else {
 		s.Lambda = lambda
